@@ -1,6 +1,7 @@
 import KmipModel.DecodeStack
 import KmipProofs.IoStackLemmas
 import KmipProofs.DecodeSpec
+import KmipModel.Stream
 /-
   The decoder over the real reader stack (KmipModel/DecodeStack.lean) simulates the flat decoder model (KmipModel/Decode.lean):
   related states (same flat view, same lookahead tag) give the same value, the same byte count and related states again - or
@@ -635,5 +636,46 @@ mutual
                 obtain ⟨rfl, rfl⟩ := hab
                 cases ty <;> exact ⟨rfl, hs2, hr2⟩
 end
+
+/-! ### successive Decode calls on one Decoder -/
+
+theorem stream_sim : ∀ (sds : List SD) (d : Dec) (x : SDec), Sim d x →
+    (Kmip.decodeStream sds d).1 = (decodeStream sds x).1 ∧ (Kmip.decodeStream sds d).2.1 = (decodeStream sds x).2.1 ∧
+    Sim (Kmip.decodeStream sds d).2.2 (decodeStream sds x).2.2
+  | [], d, x, hs => ⟨rfl, rfl, hs⟩
+  | sd :: rest, d, x, hs => by
+    rw [Kmip.decodeStream, decodeStream]
+    by_cases hd : sd.descOk = true
+    · rw [if_pos hd, if_pos hd]
+      have hr := S_sim sd sd.tag d x hs
+      cases hA : Kmip.decStruct sd.tag sd d with
+      | ok r =>
+        obtain ⟨v, n, d'⟩ := r
+        cases hB : decStruct sd.tag sd x with
+        | ok r' =>
+          obtain ⟨v', n', x'⟩ := r'
+          rw [hA, hB] at hr
+          obtain ⟨e1, hs', _⟩ := hr
+          simp only [P2d, P2s, Prod.mk.injEq] at e1 hs'
+          obtain ⟨rfl, rfl⟩ := e1
+          obtain ⟨g1, g2, g3⟩ := stream_sim rest d' x' hs'
+          simp only
+          generalize Kmip.decodeStream rest d' = q at g1 g2 g3
+          obtain ⟨vs, e, df⟩ := q
+          simp only at g1 g2 g3 ⊢
+          exact ⟨by rw [g1], g2, g3⟩
+        | err e => rw [hA, hB] at hr; simp [RelW] at hr
+        | panic p => rw [hA, hB] at hr; simp [RelW] at hr
+      | err e =>
+        cases hB : decStruct sd.tag sd x with
+        | ok r' => rw [hA, hB] at hr; simp [RelW] at hr
+        | err e' => rw [hA, hB] at hr; simp only [RelW] at hr; subst hr; exact ⟨rfl, rfl, hs⟩
+        | panic p => rw [hA, hB] at hr; simp [RelW] at hr
+      | panic p =>
+        cases hB : decStruct sd.tag sd x with
+        | ok r' => rw [hA, hB] at hr; simp [RelW] at hr
+        | err e' => rw [hA, hB] at hr; simp [RelW] at hr
+        | panic p' => exact ⟨rfl, rfl, hs⟩
+    · rw [if_neg hd, if_neg hd]; exact ⟨rfl, rfl, hs⟩
 
 end Kmip.Stk
